@@ -59,6 +59,12 @@ class Ctx(object):
     def axk(self):
         return self.k % self.a.ndim
 
+    def meta_like(self, x):
+        """x with a's array-level metadata (for operations on derived arrays of another data kind)"""
+        import copy as _c
+        x.attrs.update(_c.deepcopy(dict(self.a.attrs)))
+        return x
+
 
 def _interp_pts(c):
     v = c.a.axes[0].values
@@ -143,6 +149,10 @@ CATALOGUE = [
     ("a+0.0", "drops", None, lambda c: c.a + 0.0),
     ("a+ndarray", "drops", None, lambda c: c.a + c.arg(np.ones(c.a.shape))),
     ("-a", "drops", None, lambda c: -c.a),
+    ("+a", "drops", None, lambda c: +c.a),
+    # unary plus of boolean / string data that carry metadata (NumPy refuses these types; if an answer is given, it is an arithmetic result)
+    ("+(boolean array with metadata)", "drops", None, lambda c: +c.meta_like(c.a > np.nanmean(np.asarray(c.a.values, dtype=float)))),
+    ("+(string array with metadata)", "drops", None, lambda c: +c.meta_like(c.da.DimArray(np.asarray(c.a.values, dtype=str).astype(object), axes=[ax.copy() for ax in c.a.axes]))),
     ("a>1", "drops", None, lambda c: c.a > 1),
     ("a<=a", "drops", None, lambda c: c.a <= c.a),
     ("a==a", "drops", None, lambda c: c.a == c.a),
@@ -238,6 +248,8 @@ CATALOGUE = [
     ("sort_axis on a single label", "keeps", lambda c: list(c.a.dims), lambda c: c.a.take_axis([c.k % c.a.shape[0]], axis=0, indexing="position").sort_axis(0)),
     ("sort_axis on a single label (last axis)", "keeps", lambda c: list(c.a.dims), lambda c: c.a.take_axis([0], axis=-1, indexing="position").sort_axis(c.a.dims[-1])),
     ("reindex_axis on a single label", "keeps", lambda c: list(c.a.dims), lambda c: (lambda s_: s_.reindex_axis(s_.labels[0].copy(), axis=0))(c.a.take_axis([0], axis=0, indexing="position"))),
+    ("take_axis labels as ndarray of the axis' own dtype", "keeps", lambda c: list(c.a.dims), lambda c: c.a.take_axis(c.arg(c.a.labels[0][::-1].copy()), axis=0)),
+    ("take_axis labels as ndarray (last axis)", "keeps", lambda c: list(c.a.dims), lambda c: c.a.take_axis(c.arg(c.a.labels[-1][:1].copy()), axis=c.a.dims[-1], indexing="label")),
     ("take_axis on a single label", "keeps", lambda c: list(c.a.dims), lambda c: c.a.take_axis([0], axis=0, indexing="position").take_axis([0, 0], axis=0, indexing="position")),
     ("cumsum along a single label", "keeps", None, lambda c: c.a.take_axis([0], axis=0, indexing="position").cumsum(axis=0)),
     ("transpose with a single label", "keeps", lambda c: list(c.a.dims), lambda c: c.a.take_axis([0], axis=0, indexing="position").transpose()),
@@ -299,4 +311,6 @@ CATALOGUE = [
 ]
 
 NAMES = [e[0] for e in CATALOGUE]
+# entries that the library refuses on the unchanged tree (kept in the catalogue because an ANSWER would have to obey the rules)
+REFUSED = {"+(boolean array with metadata)", "+(string array with metadata)"}
 assert len(NAMES) == len(set(NAMES))
